@@ -39,6 +39,13 @@ def parseOp (s : String) : Option Op :=
   | ["ua", id, n, a, r, o, d, g, c, b] => do pure (.updateA (← Bytes.ofHex id) (← parseVals n a r o d g b) (parseChkA c))
   | ["cc", id, n, a, r, o, d, g, code, pals, b] => do
     pure (.createA1 (← Bytes.ofHex id) (← parseVals n a r o d g b) (← Bytes.ofHex code) (← parseList pals))
+  | ["c2", id, n, a, r, o, d, g, col] => do pure (.createA2 (← Bytes.ofHex id) (← parseVals n a r o d g) (← Bytes.ofHex col))
+  | ["c2", id, n, a, r, o, d, g, col, b] => do pure (.createA2 (← Bytes.ofHex id) (← parseVals n a r o d g b) (← Bytes.ofHex col))
+  | ["u2", id, n, a, r, o, d, g, col, c] => do
+    pure (.updateA2 (← Bytes.ofHex id) (← parseVals n a r o d g) (← Bytes.ofHex col) (parseChkA c) (c.toList.contains 'c'))
+  | ["u2", id, n, a, r, o, d, g, col, c, b] => do
+    pure (.updateA2 (← Bytes.ofHex id) (← parseVals n a r o d g b) (← Bytes.ofHex col) (parseChkA c) (c.toList.contains 'c'))
+  | ["d2", id] => do pure (.deleteA (← Bytes.ofHex id))
   | ["ri", a, b] => do pure (.rcInc (← Bytes.ofHex a) (← Bytes.ofHex b))
   | ["rd", a, b] => do pure (.rcDec (← Bytes.ofHex a) (← Bytes.ofHex b))
   | ["rs", a, b, n] => do pure (.rcSet (← Bytes.ofHex a) (← Bytes.ofHex b) (← n.toNat?))
@@ -76,7 +83,7 @@ def readsW (vals : List Bytes) (s : State) : String :=
   let per := vals.map fun v =>
     "n:" ++ hexB v ++ "=" ++ optIdW (s.uName.lookup v) ++ ";a:" ++ hexB v ++ "=" ++ optIdW (s.uAlias.lookup v) ++
     ";c:" ++ hexB v ++ "=" ++ optIdW (s.uCode.lookup v) ++ ";l:" ++ hexB v ++ "=" ++ optIdW (s.uLabel.lookup v) ++
-    ";r:" ++ hexB v ++ "=" ++ listW (setOf ((s.sRoles.lookup v).getD [])) ++ ";"
+    ";x:" ++ hexB v ++ "=" ++ optIdW (s.uColour.lookup v) ++ ";r:" ++ hexB v ++ "=" ++ listW (setOf ((s.sRoles.lookup v).getD [])) ++ ";"
   String.join per ++ "k=" ++ listW (setOf (Map.keys s.sRoles))
 
 def resW (s : State) (ops : List Op) : String :=
